@@ -241,9 +241,22 @@ def gen_subq_case(rnd):
         q = select([item(col("n0")), item(["subq", sub], "sub")], table("t"))
         tag = "subq-row"
     elif k < 0.5:
-        sub = select([item(col("v"))], ["table", ["<-", "meta"], "", "<-meta", {"bt": True}])
-        q = select([item(col("n0")), item(["subq", sub], "sub")], table("t"))
-        tag = "subq-root"
+        # a sub-query over a table of the DOCUMENT (reached through `<-`), uncorrelated or correlated with the outer row through
+        # `<-.column` in its WHERE / select list: it is evaluated for every outer row, not once
+        corr = rnd.choice([None, None, ["cmp", rnd.choice(["ge", "lt", "eq", "ne"]), col("v"), back1],
+                           ["cmp", "gt", ["bin", "plus", col("v"), back1], num(4)]])
+        shape = rnd.random()
+        frm = ["table", ["<-", "meta"], "", "<-meta", {"bt": True}]
+        if shape < 0.4 or corr is None:
+            sub = select([item(col("v"))], frm, wh=corr or TRUE)
+            q = select([item(col("n0")), item(["subq", sub], "sub")], table("t"))
+        elif shape < 0.7:
+            sub = select([item(["aggr", "count", []], "n"), item(["aggr", "sum", [col("v")]], "s")], frm, wh=corr)
+            q = select([item(col("n0")), item(["subq", sub], "sub")], table("t"))
+        else:
+            sub = select([item(col("v"))], frm, wh=corr)
+            q = select([item(col("n0")), item(col("s0"))], table("t"), wh=["cmp", "in", col("n0"), ["subq", sub]])
+        tag = "subq-root" + ("-correlated" if corr is not None else "")
     elif k < 0.75:
         sub = select([item(col("x"))], table("items"),
                      wh=rnd.choice([TRUE, TRUE, ["cmp", "ne", col("x"), back1], ["cmp", "ge", col("x"), back2]]))
